@@ -1,6 +1,7 @@
 import H3.Drv.Util
 import H3.Model.Varint
 import H3.Model.QuinnAdapter
+import H3.Model.Datagram
 /-! Driver engine `quinn` (C17).
 
     A case line is a scenario `quinn <cfg> <op>…` run by the harness over a real Quinn loopback
@@ -80,6 +81,10 @@ structure Cfg where
   dga : Bool := true
   dgp : Bool := true
   hs : String := ""
+  /-- Quinn's `max_datagram_size()` on the adapter side, as the case line reports it (the harness prints the real
+      value for the op `dgmax`; with `dgmax=` MTU discovery is off, so it is a constant of the case) -/
+  dgmax : Option Nat := none
+  mtu : Option Nat := none
 
 def parseCfg (s : String) : Option Cfg :=
   (s.splitOn ",").foldlM (init := ({} : Cfg)) fun c kv =>
@@ -104,6 +109,8 @@ def parseCfg (s : String) : Option Cfg :=
         if v == "1" then some { c with dga := true } else if v == "0" then some { c with dga := false } else none
       else if k == "dgp" then
         if v == "1" then some { c with dgp := true } else if v == "0" then some { c with dgp := false } else none
+      else if k == "dgmax" then v.toNat?.map fun n => { c with dgmax := some n }
+      else if k == "mtu" then v.toNat?.bind fun n => if 1200 ≤ n ∧ n ≤ 1452 then some { c with mtu := some n } else none
       else if k == "hs" then
         if v == "rej" || v == "kill" || v == "z0" || v == "z0r" || v == "z0t" || v == "z0v" then some { c with hs := v } else none
       else none
@@ -111,7 +118,7 @@ def parseCfg (s : String) : Option Cfg :=
 
 /-- the combinations the harness refuses -/
 def cfgOk (c : Cfg) : Bool :=
-  (c.split || c.bi) &&
+  (c.split || c.bi) && (c.mtu.isNone || c.dgmax.isSome) &&
   (if c.hs == "rej" then !c.client
    else if c.hs == "kill" then c.client
    else if c.hs == "" then true
@@ -189,6 +196,10 @@ structure Env where
   dgp : Bool := true
   dgToPeer : List Bytes := []
   dgToA : List Bytes := []
+  /-- the environment parameter: Quinn's maximal datagram size (`none`: it moves with MTU discovery) -/
+  dgmax : Option Nat := none
+  /-- specification side: what the peer has to see, datagram by datagram: `varint(sid/4) ‖ payload` -/
+  specDgToPeer : List Bytes := []
   ubuf : Option (List Bytes) := none
   zeroRtt : Bool := false           -- the stream under test was opened in 0-RTT
   zeroRej : Bool := false           -- …and the server rejected 0-RTT
@@ -343,7 +354,12 @@ def readAll : Nat → Env → Env × String × String
     let (e, o) := doRead e true
     match o with
     | .data => readAll n e
-    | .fin => (e, s!"rdall={showHash e.aRead}:end", "*")
+    | .fin =>
+      -- the specification: a stream the peer finished cleanly, never stopped from this side, read to its end, has
+      -- handed out exactly the bytes the peer wrote - length and content (the environment's record `peerWritten`,
+      -- not the model's `aRead`); after a reset / a stop of this side's own / a rejected 0-RTT stream: no opinion
+      let clean := e.peerFin && e.peerReset.isNone && e.specStop.asked.isEmpty && e.specStop.due.isEmpty && !e.zeroRej
+      (e, s!"rdall={showHash e.aRead}:end", if clean then s!"rdall={showHash e.peerWritten}:end" else "*")
     | .pending => (e, "rdall=timeout", "*")
     | o => (e, "rdall=" ++ recvOutStr o, specRecv "rdall" o)
 
@@ -668,6 +684,23 @@ def step (e : Env) (op : String) : Option (Env × String × String) :=
     | none => none
   else if h == "ab1" || h == "ab" || h == "ar1" || h == "ar" then
     some (doAccept e h (h == "ab1" || h == "ab") (h == "ab" || h == "ar"))
+  else if h == "sdm" then
+    -- the `Chain` variant of `sd`: a uni stream opened through the Connection, ONE DATA frame whose payload is a
+    -- multi-chunk `Buf` (cut at the given positions), `poll_ready` awaited, finished.  The write loop hands Quinn
+    -- the header and then chunk after chunk; what reaches the peer is the frame over the FLATTENED payload.
+    match num 1, num 2, p[3]? with
+    | some n, some seed, some cs =>
+      let ks := (cs.splitOn ",").map String.toNat?
+      let v := ks.filterMap id
+      if !(ks.all Option.isSome && (v.zip (0 :: v)).all (fun (a, b) => decide (a > b)) && v.all (fun a => decide (a < n))) then none
+      else if e.tags.length != e.opened.length then none
+      else
+        let (e', t, sp) := doOpen e "sdm" false true
+        if e'.opened.length == e.opened.length then some (e', t, sp)      -- not opened: the error / nothing
+        else
+          let e' := { e' with tags := e'.tags ++ [0 :: Varint.encode n ++ payload n seed] }
+          some (afterAccepted e' [0], t, sp)
+    | _, _, _ => none
   else if h == "otag" then
     match num 1, num 2 with
     | some n, some seed =>
@@ -727,38 +760,93 @@ def step (e : Env) (op : String) : Option (Env × String × String) :=
       | some (.applicationClosed _) => some (e, "pclosedr=locally-closed", "*")
       | some .timedOut => some (e, "pclosedr=timed-out", "*")
       | _ => if e.idle then some (e, "pclosedr=timed-out", "*") else some (e, "pclosedr=timeout", "*")
+  else if h == "dgmax" then
+    match e.dgmax with
+    | some n => some (e, if e.dgp then s!"dgmax={n}" else "dgmax=none", "*")
+    | none => none
+  else if h == "dgh" then some (e, "dgh", "*")     -- the handlers hold nothing but a handle of the connection
   else if h == "dgs" then
     match num 1, num 2, num 3 with
     | some sid, some n, some seed =>
       if sid % 4 != 0 || sid ≥ 2^62 then none else
+      -- `dgs:<sid>:<n>:<seed>:<cuts>`: the payload is a multi-chunk `Buf`; the model flattens it (C18_payload_chunking_independent)
+      let cutsOk := match p[4]? with
+        | none => true
+        | some cs =>
+          let ks := (cs.splitOn ",").map String.toNat?
+          ks.all Option.isSome &&
+            (let v := ks.filterMap id
+             (v.zip (0 :: v)).all (fun (a, b) => decide (a > b)) && v.all (fun a => decide (a < n)))
+      if !cutsOk then none else
       let wire := datagramWire (Varint.encode (sid / 4)) (payload n seed)
-      (match e.connKnown with
-       | some x =>
-         let d := convertSendDatagram (.connectionLost x)
-         let t := match d with
-           | .connection y => "dgs=err:" ++ connErrStr y
-           | .notAvailable => "dgs=not-available"
-           | .tooLarge => "dgs=too-large"
-         some (e, t, if specErr (.connection (convertConn x)) then t else "*")
-       | none =>
-         if !e.dga then some (e, "dgs=not-available", "*")       -- `Disabled`
-         else if !e.dgp then some (e, "dgs=not-available", "*")  -- `UnsupportedByPeer`
-         else if wire.length > 1500 then some (e, "dgs=too-large", "*")
-         else some (afterAccepted { e with dgToPeer := e.dgToPeer ++ [wire] } wire, "dgs=ok", "*"))
+      -- the specification's datagram, written from RFC 9297 §2.1
+      let specWire := Varint.encode (sid / 4) ++ payload n seed
+      -- Quinn's limit: the environment parameter of the case; without it only sizes every path MTU admits / refuses
+      let verdict : Option Bool := match e.dgmax with
+        | some m => some (decide (wire.length > m))
+        | none => if wire.length ≤ 1100 then some false else if wire.length > 1500 then some true else none
+      (match verdict with
+       | none => none
+       | some tooLarge =>
+        (match e.connKnown with
+         | some x =>
+           let d := convertSendDatagram (.connectionLost x)
+           let t := match d with
+             | .connection y => "dgs=err:" ++ connErrStr y
+             | .notAvailable => "dgs=not-available"
+             | .tooLarge => "dgs=too-large"
+           some (e, t, if specErr (.connection (convertConn x)) then t else "*")
+         | none =>
+           if !e.dga then some (e, "dgs=not-available", "dgs=not-available")       -- `Disabled`
+           else if !e.dgp then some (e, "dgs=not-available", "dgs=not-available")  -- `UnsupportedByPeer`
+           else if tooLarge then some (e, "dgs=too-large", if specWire.length > e.dgmax.getD 1500 then "dgs=too-large" else "dgs=ok")
+           else some (afterAccepted { e with dgToPeer := e.dgToPeer ++ [wire], specDgToPeer := e.specDgToPeer ++ [specWire] } wire,
+                      "dgs=ok", if specWire.length > e.dgmax.getD 1500 then "dgs=too-large" else "dgs=ok")))
     | _, _, _ => none
   else if h == "pdg" then
     if e.peerGone then none else
+    -- the specification: the peer sees exactly `varint(sid/4) ‖ payload`, length and content
+    let (sp, rs) := match e.specDgToPeer with
+      | w :: r => (s!"pdg={showHash w}", r)
+      | [] => ("*", [])
     match e.dgToPeer with
-    | w :: r => some ({ e with dgToPeer := r }, s!"pdg={showHash w}", "*")
-    | [] => some (e, "pdg=timeout", "*")
+    | w :: r => some ({ e with dgToPeer := r, specDgToPeer := rs }, s!"pdg={showHash w}", sp)
+    | [] => some ({ e with specDgToPeer := rs }, "pdg=timeout", sp)
   else if h == "pdgs" then
     if e.peerGone then none else
     match num 1, num 2 with
-    | some n, some seed => some ({ e with dgToA := e.dgToA ++ [payload n seed] }, "pdgs", "*")
+    | some n, some seed =>
+      (match p[3]? with
+       | none => some ({ e with dgToA := e.dgToA ++ [payload n seed] }, "pdgs", "*")
+       | some sidS =>
+         match sidS.toNat? with
+         | some sid =>
+           if sid % 4 != 0 || sid / 4 ≥ 2^62 then none
+           else some ({ e with dgToA := e.dgToA ++ [Varint.encode (sid / 4) ++ payload n seed] }, "pdgs", "*")
+         | none => none)
     | _, _ => none
+  else if h == "dgrd" then
+    -- the datagram the peer sent, decoded by h3-datagram: stream id and payload exact
+    match e.dgToA with
+    | w :: r =>
+      let m := match H3.Datagram.decode w with
+        | .ok sid pl => s!"dgrd={sid}:{showHash pl}"
+        | .datagramError => "dgrd=datagram-error"
+      let sp := match Varint.rfcDecode w with
+        | some (q, rest) => if 4 * q > 2^62 - 1 then "dgrd=datagram-error" else s!"dgrd={4 * q}:{showHash rest}"
+        | none => "dgrd=datagram-error"
+      some ({ e with dgToA := r }, m, sp)
+    | [] =>
+      (match e.connKnown with
+       | some x => some (e, s!"dgrd={connErrTok x}", specConnTok "dgrd" x)
+       | none =>
+         match awaitConn e with
+         | (some x, e') => some (e', s!"dgrd={connErrTok x}", specConnTok "dgrd" x)
+         | (none, e') => some (e', "dgrd=timeout", "*"))
   else if h == "dgr1" || h == "dgr" then
     match e.dgToA with
-    | w :: r => some ({ e with dgToA := r }, s!"{h}={showHash w}", "*")
+    -- what the peer sent is handed out unchanged: length and content (the specification's token is the same one)
+    | w :: r => some ({ e with dgToA := r }, s!"{h}={showHash w}", s!"{h}={showHash w}")
     | [] =>
       (match e.connKnown with
        | some x => some (e, s!"{h}={connErrTok x}", specConnTok h x)
@@ -835,6 +923,7 @@ def handle : List String → String
         takenU := if c.bi then 0 else theirs
         dga := c.dga
         dgp := c.dgp
+        dgmax := c.dgmax
         zeroRtt := c.hs == "z0" || rejected
         zeroRej := rejected
         zacc := if c.hs == "z0" then some true else if rejected then some false else none
